@@ -50,6 +50,11 @@ CHECKS = {
     technique="TLA+ spec of the controller (Controller.tla: application lifecycle, global physical-qubit pool, interleaved subroutines, keep responses) model-checked by TLC to a depth bound; histories of the real QNodeController/Executor (bounded exhaustive DFS + long random walks) trace-validated by TLC (ControllerTrace) with the property invariants evaluated in every state",
     text="TLC explores all histories of register/stop/re-register, library subroutines of 2 applications interleaved at instruction grain, keep deliveries onto any unused physical qubit and retries, to depth 14 (quick) / 17 (thorough), checking: no two allocated virtual qubits share a physical qubit, in-use = mapped + reserved (= mapped when nothing is pending), an action only changes the applications it acts for, stop releases exactly the application's qubits and all its state, an unregistered id can always be registered. The same operations are performed on the real controller through real message bytes; an exhaustive DFS to depth 7/9 and 200/1500 random walks of 120/300 operations over up to 3 applications and unit modules 1..4 are validated by TLC against the specification, projecting every application's registers, arrays, shared memory, unit module, the used set, pending responses and the shared-memory registry.",
     note="Trusted: TLC, harness/rig.py (ControllerRun). Depth-bounded exploration; no unbounded (inductive) proof was built. The re-registration defect found by this check was repaired in /repo (8d4c1be)."),
+ "C18": dict(
+    engine="hub", category="model_checking", design="5 C18",
+    technique="statement-level TLA+ spec of the socket hub (Hub.tla) model-checked by TLC incl. liveness; ALL schedules of REAL threads under a deterministic statement-level scheduler (stateless DFS); API histories validated by TLC against the atomic-API spec HubAbs with TLC choosing linearization points; outcome-set conformance Hub.tla <-> real threads",
+    text="Per scenario (6 quick / 9 thorough: FIFO, both directions, callback endpoints, early disconnect, send after the peer left, non-blocking polls, two socket ids, 2 and 4 threads) (a) TLC explores every interleaving of the statement-level model (one action per shared-state statement of socket_hub.py, in the statement order of the working tree) and checks FIFO-prefix, conservation, no stranding at callback endpoints and termination under strong fairness; (b) the rig runs the real ThreadSocket code on real threads, preempting at every source line that touches shared hub state, and enumerates all schedules by stateless DFS pruned by state; states from which no schedule lets the endpoints finish are reported (rendezvous, lost wake-ups); (c) each distinct API history (calls, returns, callback invocations, final queues) is validated by TLC against HubAbs - the property itself - as a linearizability check; (d) the set of outcomes of the real threads must be a subset of the outcomes Hub.tla allows.",
+    note="Trusted: TLC, harness/sched.py (sys.settrace scheduler, cooperative lock). Assumes Python statements are atomic (GIL). The callback race found by TLC and by the real-thread exploration was repaired in /repo (f40b165)."),
 }
 
 REASON_TODO = "check not built yet (work in progress; see DESIGN.md section 9)"
